@@ -143,6 +143,7 @@ def r5_3(ctx, fx):
 
 
 R55_EXC = {
+    ("generator_widening_assign", "reads", "y.gen_sys"): "yy.update_generators() is called for its effect; if it finds y empty it clears y's generators, and the row-count comparison that follows returns with x unchanged (x non-empty has at least one row): the correct result for an empty y (replayed)",
     ("Grid", "assert", "GU"): "Grid(const Polyhedron&): `use_constraints = ph.constraints_are_minimized() || !ph.generators_are_up_to_date()` is a computed bool the explorer cannot correlate; in its false branch the generators are up to date",
     ("upper_bound_assign_if_exact", "assert", "GU"): "the preceding x.is_included_in(y) returned false, which it does only after bringing the generators of x up to date (read in Grid_nonpublic.cc)",
     ("generalized_affine_image", "update_generators"): ("this", "add_recycled_congruences(new_cgs1) with a non-empty system brings the congruences up to date before inserting (or finds the grid empty, excluded by the `!is_empty()` guard)"),
